@@ -77,7 +77,7 @@ class FlexiblePaxosNode(Entity):
         super().__init__(name)
         self._network = network
         self._peers: list[FlexiblePaxosNode] = list(peers) if peers else []
-        self._state_machine = state_machine or KVStateMachine()
+        self._state_machine = state_machine if state_machine is not None else KVStateMachine()
         self._heartbeat_interval = heartbeat_interval
 
         total = len(self._peers) + 1
